@@ -17,41 +17,62 @@ PROP = "C13"
 MANIFEST = {
     "text": "Lean 4 theorems for all layouts / world sizes / ranks / batch sizes / limits / operation histories: chunks() is a "
             "contiguous near-equal split whose pieces concatenate to the input; the rank samplers concatenate to 0..N-1 exactly "
-            "once in order and each volume lies on exactly one rank (empty ranks allowed); every pass of every iter/len history "
-            "of BatchVolumeSampler yields, per volume in order, its indices cut into pieces of the batch size (single volume, "
-            "consecutive, <= batch size, count = len(), nothing lost); ConcatDatasetBatchSampler batches lie in the drawn "
-            "member's index block; DistributedSampler rank streams partition the infinite stream. Tied to the code by translated "
-            "kernels (chunks arithmetic, yield/advance conditions, batch count, offsets, islice arguments, '__iter__ writes "
-            "nothing on self') with bridge lemmas, and by exact differential correspondence of op sequences on the real samplers.",
+            "once in order and each volume lies on exactly one rank (empty ranks allowed), for every value of the volume limit "
+            "(ranks_cover_exactly_once_any_limit); BatchVolumeSampler is a machine with any number of live generator objects "
+            "(iter / next / abandon / len in arbitrary interleavings, Model/C13Machine.lean): every pass started in any reachable "
+            "state - after complete, abandoned or interleaved passes - yields, per volume in order, its indices cut into pieces of "
+            "the batch size, len() of them, then StopIteration (bvs_pass_after_any_history, bvs_machine_batches_single_volume, "
+            "bvs_pass_length_eq_len), because no operation writes the object; ConcatDatasetBatchSampler batches lie in the drawn "
+            "member's index block; DistributedSampler rank streams dealt round-robin reproduce the one stream of epoch "
+            "permutations (no padding / duplication when size is not a multiple of world). Tied to the code by translated kernels "
+            "(chunks arithmetic, yield/advance conditions, batch count, offsets, islice arguments) and structural tables with "
+            "decided predicates (no method but __init__ writes or advances anything on self, __init__ stores no one-shot "
+            "iterator, __iter__ reads only batch_size / end_of_volume / sampler, order limit -> chunks -> select and the "
+            "communication defaults of DistributedSequentialSampler.__init__, shared seed of DistributedSampler, call sites of "
+            "build_batch_sampler), and by exact differential correspondence of op histories on the real samplers, also built "
+            "through Engine.build_batch_sampler and iterated through Engine.build_loader's DataLoader.",
     "note": "Trusted: Lean kernel (+propext, Classical.choice, Quot.sound), the AST translator, harness-side patching of "
-            "communication.get_rank/get_world_size and recording of random.choices. math.ceil(n / bs) is modelled as the exact "
-            "integer ceiling; theorems float_ceil_* reduce the equality to IEEE-754 correct rounding for all n < 2^52 (probed "
-            "adversarially). No call site of build_batch_sampler passes a volume limit (translated table); DistributedSampler has "
-            "no set_epoch, one generator seeded once (table); the concat member is drawn with weights = lengths (table + 6-sigma "
-            "test in the thorough tier). Volumes are assumed non-empty (>= 1 slice) as in the property's "
-            "quantifier: an empty volume in the middle of the list does make later batches mix volumes (theorem "
-            "bvs_empty_volume_mixes documents it). The permutation stream of torch.randperm is an input of the model.",
-    "technique": "Lean 4 proof (list induction with loop invariant, omega) + AST translation bridge + differential correspondence "
-                 "on operation histories",
+            "communication.get_rank/get_world_size/all_gather and recording of random.choices. math.ceil(n / bs) is modelled as "
+            "the exact integer ceiling; float_ceil_eq proves the equality for all n < 2^52 for every rounding of the quotient that "
+            "is monotone and exact on 53-bit dyadics (the only thing assumed of binary64 division; probed adversarially). No "
+            "call site of build_batch_sampler passes a volume limit (table); DistributedSampler has no set_epoch, one generator "
+            "seeded once with the shared seed (tables); the concat member is drawn with weights = lengths (table + 6-sigma test "
+            "in the thorough tier). Volumes are assumed non-empty (>= 1 slice) as in the property's quantifier: an empty volume "
+            "in the middle of the list does make later batches mix volumes (theorem bvs_empty_volume_mixes documents it). The "
+            "permutation stream of torch.randperm is an input of the model; multi-process runs are simulated in one process "
+            "(ranks patched, all_gather returning rank 0's datum). DataLoader is used with num_workers=0.",
+    "technique": "Lean 4 proof (list induction with loop invariant, generator state machine with a 'remaining output' "
+                 "refinement, omega) + AST translation bridge + differential correspondence on operation histories",
 }
 TRUSTED = [
     "Lean 4.33 kernel; axioms ⊆ {propext, Classical.choice, Quot.sound}",
     "harness/translate recipes c13 (Python AST -> Lean) for chunks / BatchVolumeSampler / ConcatDatasetBatchSampler / "
-    "DistributedSampler kernels and the structural scan of __iter__",
-    "torch.utils.data.Sampler base class, OrderedDict / range semantics as encoded by the list model",
-    "harness patches direct.utils.communication.get_rank/get_world_size and wraps random.choices to record the drawn member",
-    "DistributedSequentialSampler.__init__ (filename slicing, dict building) is hand-modelled; tied by correspondence",
+    "DistributedSampler kernels and the structural scans (self reads / writes / iterator-valued attributes, statement order)",
+    "torch.utils.data.Sampler base class, OrderedDict / range semantics as encoded by the list model; Python generator "
+    "semantics (body runs from yield to yield, nothing runs at iter()) as encoded by Sampler.GenSt / BVS.resume",
+    "torch.utils.data.DataLoader (num_workers=0) calls iter(batch_sampler) once per loader iterator and next() once per batch "
+    "(observed through the correspondence in mode build_loader)",
+    "harness patches direct.utils.communication.get_rank/get_world_size (and all_gather for simulated ranks) and wraps "
+    "random.choices to record the drawn member",
+    "DistributedSequentialSampler.__init__ (filename slicing, dict building) is hand-modelled; tied by the seq_init_order table "
+    "and by correspondence on every rank",
 ]
 ASSUMPTIONS = [
-    "binary64 division is correctly rounded (IEEE 754): with that, C13.float_ceil_witness_le / _representable / _of_sandwich prove "
-    "math.ceil(n / bs) = integer ceiling for all n < 2^52 (probed exhaustively for n <= 600, bs <= 32 and adversarially up to 2^52)",
+    "binary64 division rounds monotonically and is exact on representable values (IEEE 754 correct rounding implies both): with "
+    "that, C13.float_ceil_eq proves math.ceil(n / bs) = integer ceiling for all n < 2^52, bs >= 1 (probed exhaustively for "
+    "n <= 600, bs <= 32 and adversarially up to 2^52)",
     "every volume has at least one slice (property quantifier: 1..9 slices)",
     "torch.randperm / torch.arange epochs are supplied to the model as data; that each is a permutation is checked by the oracle",
+    "abandoning a generator (del / close() / exception thrown into it / leaked reference) runs no code of __iter__ "
+    "(there is no try/finally in it; a write added there would show in bvs_iter_self_writes)",
 ]
-RULE = ("dataset layouts = compositions of up to 6 volumes with 1..9 slices; world 1..8 (also > #volumes), every rank; batch "
-        "1..10; volume limits; histories of 1..5 iter/len operations with 1..3 passes. non-trivial = at least 2 volumes in the "
-        "(limited) layout, or for chunks/dist/concat a split into >= 2 parts of a list with >= 2 elements; distinct = distinct "
-        "protocol line")
+RULE = ("dataset layouts = compositions of up to 6 volumes with 1..9 slices (+ fixed corners: one-slice volumes, batch 1, batch > "
+        "largest volume, world > volumes, non-dividing worlds, limits beyond / negative); world 1..8, every rank; batch 1..10; "
+        "volume limits; histories of 1..5 iter/len operations with 1..3 passes, and machine histories of 8..150 iter/next/abandon/"
+        "len operations with up to 5 live iterators (abandon after k batches, peek, zip, lagging zip, random interleaving, complete "
+        "passes) on objects built directly, by Engine.build_batch_sampler, or iterated through Engine.build_loader. non-trivial = "
+        "at least 2 volumes in the (limited) layout, or for chunks/dist/concat a split into >= 2 parts of a list with >= 2 "
+        "elements; distinct = distinct protocol line")
 PENDING_FINDINGS: list[str] = []
 EXTRA_LEAN_MODULES = ["DirectVerif.Lemmas.C13Machine", "DirectVerif.Lemmas.C13Bvs", "DirectVerif.Lemmas.C13Chunks",
                       "DirectVerif.Lemmas.C13Misc"]   # helper lemmas: hygiene-checked and axiom-audited too
